@@ -45,8 +45,11 @@ def run(pid, binary, seed=0, only=None, workers=8):
     cs = [c for c in all_cases(pid, seed) if only is None or c.name == only]
     with ThreadPoolExecutor(max_workers=workers) as ex:
         recs = list(ex.map(lambda c: c.run(binary), cs))
-    failed = [r for r in recs if not r["ok"] and r.get("property") == pid]
-    other = [r for r in recs if not r["ok"] and r.get("property") != pid]
+    def _props(r):
+        x = r.get("property")
+        return list(x) if isinstance(x, (list, tuple)) else [x]
+    failed = [r for r in recs if not r["ok"] and pid in _props(r)]
+    other = [r for r in recs if not r["ok"] and pid not in _props(r)]
     errs = [r for r in recs if r.get("harness_error")]
     return {
         "label": "bounded stand-in: a finite family of concrete projects and operation sequences run against the binary built from the current tree; a pass proves nothing and is not counted among the discharged obligations",
